@@ -478,6 +478,11 @@ func (option *Option) isFunc() bool {
 func (option *Option) call(value *string) error {
 	var retval []reflect.Value
 
+	if option.value.IsNil() {
+		// the program did not assign a function: there is nothing to call
+		return nil
+	}
+
 	if value == nil {
 		retval = option.value.Call(nil)
 	} else {
